@@ -390,6 +390,19 @@ class Mapper(Client):
             dev = r.choice([0.01, 0.1, 1.0])
         if kind != "constant" and hi - lo < 1e-3:
             hi = lo + 0.05   # a Gaussian confined to a point never terminates
+        if kind == "gaussian" and r.random() < 0.06:
+            # centre outside its own bounds, acceptance of a few in ten thousand:
+            # legal (documented as slow), every value must still be in bounds
+            dev = 0.01
+            if role == "loss":
+                c, lo, hi = 0.02, round(0.02 + 3.5 * dev, 4), 1.0
+            elif role == "bs_reflectivity":
+                c, lo, hi = 0.5, round(0.5 + 3.5 * dev, 4), 1.0
+            else:
+                c, lo, hi = 0.0, round(3.5 * dev, 4), 0.5
+            return {"op": "new_dist", "dkind": "gaussian",
+                    "args": [c, dev, lo, hi], "out": w.new_id("dist"),
+                    "seed": self.seed_value(), "role": role}
         if kind == "constant":
             args = [c]
         elif kind == "gaussian":
